@@ -501,6 +501,8 @@ def r13_export_all(c, facts, rule='C09.R13'):
             continue        # the end of the iteration, or an entry that is still the in-progress marker (None)
         gs = MF.slice_back(fn, sw['discr']['l'], idx, through_calls=False)
         names = sorted({P.strip(n).split('::')[-1] for n, _, _ in gs['calls']}) or sorted(t.split('<')[0].split('::')[-1] for t in tys) or ['a condition']
+        if set(names) <= {'branch', 'next', 'into_iter', 'iter', 'from_residual'}:
+            continue        # the end of the iteration, or the error exit of a `?`
         extra |= set(names)
     inst = {'insert sites': len(ins)}
     if extra:
